@@ -1,6 +1,7 @@
 """C19 - rendering is total and shows the model at the selected time."""
 import dataclasses
 import inspect
+import itertools
 import os
 import traceback
 import warnings
@@ -487,6 +488,9 @@ def s_content(tier):
         "win": st.one_of(window(), st.tuples(st.integers(0, 10), st.integers(0, 6)).map(lambda t: [t[0], t[0] + t[1]])),
         "flags": st.lists(st.sampled_from(CONTENT_FREE), max_size=4, unique=True),
         "window_first": st.booleans(),
+        # earlier frames drawn and rendered with the same renderer: [time_begin, length, keep_static_artists]
+        "prior": st.one_of(st.just([]), st.just([]), st.lists(
+            st.tuples(st.integers(0, 10), st.integers(0, 6), st.booleans()).map(list), min_size=1, max_size=2)),
     }).map(lambda d: dict(d, tb=d["win"][0], te=d["win"][1], flags=sorted(set(d["flags"]) | set(CONTENT_OFF))))
     return st.fixed_dictionaries({"scene": scene, "params": params})
 
@@ -502,11 +506,19 @@ def check_content(r, ctx):
         stage = Stage()
         mp = make_params(p)
         fig, rnd = new_renderer(mp if p["form"] == "renderer" else None)
+        for ptb, plen, keep in p.get("prior", []):
+            # a renderer is reused for a sequence of frames: what is drawn for the frame under test is that frame's
+            q = p if p["form"] == "renderer" else dict(p, tb=ptb, te=ptb + plen)
+            draw_everything(rnd, sc, PlanningProblemSet([]), mp if p["form"] == "renderer" else make_params(q),
+                            dict(q, extras=False), stage)
+            stage.run("render", lambda: rnd.render(keep_static_artists=keep))
+            stage.run("canvas-draw", fig.canvas.draw)
+            ctx.label("frame-after-render(keep_static_artists=%s)" % keep)
         draw_everything(rnd, sc, PlanningProblemSet([]), mp, dict(p, extras=False), stage)
         drawn = [patch_geo(x) for x in rnd.obstacle_patches]
         stage.run("draw-planning-problem-set", lambda: pps.draw(rnd, mp if p["form"] != "renderer" else None))
         finish(fig, rnd, stage)
-    required, extra = [], []
+    required, extra, ambiguous = [], [], []
     has, lacks = 0, 0
     for o in scene["obstacles"]:
         tag = "%s %d" % (o["role"], o["id"])
@@ -520,6 +532,7 @@ def check_content(r, ctx):
         later_allowed = o["role"] in ("dyn-set", "phantom")
         if not later_allowed:
             continue
+        pending = []
         for t in range(tb + 1, min(te, 40) + 1):
             occ = ref_occupancy(o, t)
             if occ is None:
@@ -528,11 +541,29 @@ def check_content(r, ctx):
             if later_required and t < te:
                 required += items
                 ctx.label("later-step-required")
+            elif o["role"] == "dyn-set" and t < te:
+                pending += items
             else:
                 extra += items
                 ctx.label("later-step-allowed")
-    scale = max([1.0] + [gg.geo_scale_of(g) for _, g in required + extra])
-    bad = match_multiset(drawn, required, extra, 1e-9 * (1 + scale))
+        if pending:
+            # set-based obstacle without occupancy at time_begin: the statement can be read as "its later occupancies
+            # are drawn" or as "nothing is drawn"; drawing some of them and not the others satisfies neither reading
+            ambiguous.append(pending)
+            ctx.label("later-steps-all-or-none")
+    scale = max([1.0] + [gg.geo_scale_of(g) for _, g in required + extra] + [gg.geo_scale_of(g) for a in ambiguous
+                                                                           for _, g in a])
+    bad = None
+    for choice in itertools.product([True, False], repeat=len(ambiguous)):
+        req = list(required)
+        for take, items in zip(choice, ambiguous):
+            if take:
+                req += items
+        res = match_multiset(drawn, req, extra, 1e-9 * (1 + scale))
+        if res is None:
+            bad = None
+            break
+        bad = bad or res
     if bad:
         raise Violation("obstacle-patch-" + bad[0], "window [%d, %d], form %s: %s; drawn %d patches, required %d, "
                         "additionally allowed %d" % (tb, te, p["form"], bad[1], len(drawn), len(required),
